@@ -72,6 +72,24 @@ CLAIMED = {
    note="Trusted: Coq kernel, extraction+driver, harness, genzip.py/zipfile producers, strictzip.py. The reader side (by_index_raw yields the csize bytes at the data start) is the reader model compared by correspondence, not a separate theorem.",
    technique="Coq proof (raw copy on an ideal sink: verbatim bytes, source metadata, no recomputation) + byte-exact correspondence over independent sources",
    design="8 (C14)"),
+ "C08": dict(
+   text="Machine-checked Coq theorems, for ALL values below 2^64 (so incl. 0xFFFF/0xFFFFFFFF and either side): the clamped "
+        "32-bit fields + ZIP64 block of the central record the writer emits are decoded by the reader's extra-field logic to "
+        "the exact three 64-bit values; behind any bytes, the end records the writer emits (plain, or ZIP64 record + locator "
+        "+ plain, used exactly when a count/size/offset does not fit) are parsed by the reader model's parse_eocd / "
+        "get_directory_counts to exactly (offset 0, directory offset, entry count) for every count, offset, size and comment; "
+        "a successful write never takes a non-large entry above 2^32-1 bytes, the write that would is the large-file error "
+        "and closes the writer so that finish() is an error too, and a compressed size that does not fit makes closing the "
+        "entry an error (no wrapped sizes).  Correspondence at real sizes over a sparse in-memory device: entries of 2^32-2.."
+        "5 GiB with/without large_file, header and directory offsets exactly at 2^32-2..2^32+1, 65535/65536 entries "
+        "(thorough 65534..70001, other chunkings, deflate), raw copies of foreign entries whose compressed and uncompressed "
+        "sizes straddle the limit independently: every header byte the crate wrote equals the model's header writers placed "
+        "by the layout arithmetic, no stray bytes, the crate re-opens, lists and fully re-reads the sparse archive, an "
+        "independent parser validates it; foreign archives with ZIP64 forced on small files in all 2^3 subsets (model = "
+        "crate) and hand-packed sparse foreign archives with huge values in each allowed extra layout.",
+   note="Trusted: Coq kernel, extraction+driver, harness (sparse device), genzip.py, strictzip.py, Python crc32_combine. The writer state machine itself is not executed by the model at >4 GiB (contents cannot be materialised): at those sizes only the header writers are compared, the state machine is compared at small sizes (C01/C12); find_eocd's backward search is not part of the end-record theorem (hypothesis: position of the end record); a directory > 4 GiB is covered by the theorem only.",
+   technique="Coq proof (ZIP64 field and end-record round trips for all 64-bit values, large-file guard lemmas) + sparse-device correspondence of header bytes at real >4 GiB sizes",
+   design="8 (C08)"),
  "C03": dict(
    text="Machine-checked Coq theorems over the reader model: lookup by name returns the LAST entry carrying the decoded "
         "name, an absent name and an out-of-range index are not-found, an undecodable method fails that entry only.  "
